@@ -426,7 +426,15 @@ where
         value: impl Borrow<Self::Input>,
     ) -> (usize, Self::Output) {
         let value = *value.borrow();
-        let zeros_to_skip = value >> self.l;
+        // The high bits contain just (u >> l) + 1 zeros. All elements are
+        // bounded by u, so the predecessor of a value beyond u is the last
+        // element: we look for it from the last bucket, where every lower
+        // part qualifies.
+        let (zeros_to_skip, value_low_bits) = if value > self.u {
+            (self.u >> self.l, usize::MAX)
+        } else {
+            (value >> self.l, value & ((1 << self.l) - 1))
+        };
         let mut bit_pos = self.high_bits.select_zero_unchecked(zeros_to_skip) - 1;
 
         let mut rank = bit_pos - zeros_to_skip;
@@ -460,11 +468,11 @@ where
             }
 
             if STRICT {
-                if lower_bits < value & ((1 << self.l) - 1) {
+                if lower_bits < value_low_bits {
                     return (rank, ((bit_pos - rank) << self.l) | lower_bits);
                 }
             } else {
-                if lower_bits <= value & ((1 << self.l) - 1) {
+                if lower_bits <= value_low_bits {
                     return (rank, ((bit_pos - rank) << self.l) | lower_bits);
                 }
             }
